@@ -157,11 +157,19 @@ Definition less_index (a b : update) : bool :=
 Record way := mkWay { w_id : Z; w_nodes : list wnode; w_updates : list update }.
 Record segment := mkSeg { s_index : Z; s_orient : Z; s_reversed : bool; s_line : list point }.
 
+(* Segment.Reverse (mputil.go): flips the flag and reverses the line in place (orb.LineString.Reverse) *)
+Definition seg_reverse (s : segment) : segment :=
+  mkSeg (s_index s) (s_orient s) (negb (s_reversed s)) (rev (s_line s)).
+
 Fixpoint find_way (id : Z) (ws : list way) : option way :=
   match ws with
   | [] => None
   | w :: r => if w_id w =? id then Some w else find_way id r
   end.
+
+(* w.LineStringAt(at) on a way value *)
+Definition way_line_string_at (w : way) (at_ : Z) : option (list point) :=
+  line_string_at at_ (w_nodes w) (w_updates w).
 
 Inductive group_res :=
 | GOk (outer inner : list segment) (tainted : bool)
